@@ -219,6 +219,8 @@ fn render<T: std::fmt::Display>(x: &T, prec: Option<usize>) -> String {
 pub enum Case {
     Matrix { mat: Vec<Vec<f64>>, bias: Vec<f64> },
     Tree { t: TSpec, layout: u8 },
+    /// branching factor 4 (two-row predicates): Display only (Dot is defined for binary trees)
+    Tree4 { t: TSpec },
 }
 
 fn options_for(n: usize, rows: usize) -> Vec<Opt> {
@@ -293,16 +295,105 @@ fn check_matrix(mat: &[Vec<f64>], bias: &[f64]) -> CaseOut {
     out
 }
 
-fn check_tree(t: &TSpec, layout: u8) -> CaseOut {
-    let mut out = CaseOut::default();
-    let tree: AffTree<2> = match layout { 0 => t.build(), 1 => t.build_bfs(), _ => t.build_scrambled() };
-    out.add("objects", 1);
-    out.add("objects_nontrivial", 1);
-    let nodes: Vec<(usize, bool, Vec<Vec<f64>>, Vec<f64>, Vec<Option<usize>>, Option<usize>)> = tree
-        .tree
+type NodeRow = (usize, bool, Vec<Vec<f64>>, Vec<f64>, Vec<Option<usize>>, Option<usize>);
+
+fn node_rows<const K: usize>(tree: &AffTree<K>) -> Vec<NodeRow> {
+    tree.tree
         .node_iter()
         .map(|(i, n)| (i, n.isleaf, n.value.aff.mat.outer_iter().map(|r| r.to_vec()).collect(), n.value.aff.bias.to_vec(), n.children.to_vec(), n.parent))
-        .collect();
+        .collect()
+}
+
+fn check_tree4(t: &TSpec) -> CaseOut {
+    let mut out = CaseOut::default();
+    let tree: AffTree<4> = t.build();
+    out.add("objects", 1);
+    out.add("objects_nontrivial", 1);
+    out.add("evaluations", 1);
+    let nodes = node_rows(&tree);
+    match catch(|| format!("{}", tree)) {
+        Err(m) => out.violate(Violation::new(format!("Display panicked: {m}"), json!({"tree": t.to_json()})).tag("kind", "panic")),
+        Ok(txt) => {
+            if let Err((k, m)) = check_display(&txt, &nodes) {
+                out.violate(Violation::new(format!("Display output (K=4) not faithful: {m}"), json!({"tree": t.to_json(), "K": 4, "rendered": txt})).tag("kind", "display").tag("what", k).tag("K", "4"));
+            }
+        }
+    }
+    out
+}
+
+fn check_display(txt: &str, nodes: &[NodeRow]) -> Result<(), (String, String)> {
+    let func_o = Opt::from(&FormatOptions::default_func(), None);
+    let poly_o = Opt::from(&FormatOptions::default_poly(), None);
+    let mut lines = txt.split('\n').peekable();
+    let hdr = lines.next().unwrap_or("");
+    if hdr != format!("Decision Tree with {} nodes", nodes.len()) {
+        return Err(("display_header".into(), hdr.to_string()));
+    }
+    let mut seen = vec![];
+    let mut edges: Vec<(usize, usize, usize)> = vec![];
+    while let Some(l) = lines.next() {
+        if l.is_empty() {
+            continue;
+        }
+        let l = l.strip_prefix('[').ok_or(("display_syntax".to_string(), format!("line {:?}", l)))?;
+        let bar = l.find('|').ok_or(("display_syntax".to_string(), "no |".to_string()))?;
+        let idx: usize = l[..bar].trim().parse().map_err(|_| ("display_syntax".to_string(), "index".to_string()))?;
+        let kind = &l[bar + 1..bar + 2];
+        let mut body = l[bar + 4..].to_string();
+        // continuation lines of multi-row functions / predicates
+        while let Some(nx) = lines.peek() {
+            if nx.starts_with('[') || nx.starts_with("children: ") || nx.is_empty() {
+                break;
+            }
+            body.push('\n');
+            body.push_str(lines.next().unwrap());
+        }
+        let nd = nodes.iter().find(|x| x.0 == idx).ok_or(("display_nodes".to_string(), format!("unknown node {idx}")))?;
+        if (kind == "T") != nd.1 {
+            return Err(("display_kind".into(), format!("node {idx} shown as {kind}")));
+        }
+        let (o, ineq) = if nd.1 { (&func_o, false) } else { (&poly_o, true) };
+        check_rows(&body, &nd.2, &nd.3, o, ineq).map_err(|(k, m)| (format!("display_label_{k}"), format!("node {idx}: {m}")))?;
+        seen.push(idx);
+        if let Some(nx) = lines.peek() {
+            if let Some(ch) = nx.strip_prefix("children: ") {
+                for part in ch.split(", ") {
+                    let mut it = part.split("->");
+                    let lab: usize = it.next().unwrap_or("").trim().parse().map_err(|_| ("display_syntax".to_string(), format!("children {:?}", ch)))?;
+                    let dst: usize = it.next().unwrap_or("").trim().parse().map_err(|_| ("display_syntax".to_string(), format!("children {:?}", ch)))?;
+                    edges.push((idx, lab, dst));
+                }
+                lines.next();
+            }
+        }
+    }
+    let exp_ids: Vec<usize> = nodes.iter().map(|x| x.0).collect();
+    if seen != exp_ids {
+        return Err(("display_nodes".into(), format!("statements for {:?}, arena {:?}", seen, exp_ids)));
+    }
+    let mut exp_edges: Vec<(usize, usize, usize)> = vec![];
+    for nd in nodes {
+        for (l, c) in nd.4.iter().enumerate() {
+            if let Some(c) = c {
+                exp_edges.push((nd.0, l, *c));
+            }
+        }
+    }
+    edges.sort();
+    exp_edges.sort();
+    if edges != exp_edges {
+        return Err(("display_edges".into(), format!("{:?} vs {:?}", edges, exp_edges)));
+    }
+    Ok(())
+}
+
+fn check_tree(t: &TSpec, layout: u8) -> CaseOut {
+    let mut out = CaseOut::default();
+    let tree: AffTree<2> = t.build_layout(layout);
+    out.add("objects", 1);
+    out.add("objects_nontrivial", 1);
+    let nodes: Vec<NodeRow> = node_rows(&tree);
     let rec = |txt: &str| json!({"tree": t.to_json(), "layout": layout, "rendered": txt});
     let func_o = Opt::from(&FormatOptions::default_func(), None);
     let poly_o = Opt::from(&FormatOptions::default_poly(), None);
@@ -381,69 +472,7 @@ fn check_tree(t: &TSpec, layout: u8) -> CaseOut {
     match catch(|| format!("{}", tree)) {
         Err(m) => out.violate(Violation::new(format!("Display panicked: {m}"), rec("")).tag("kind", "panic")),
         Ok(txt) => {
-            let r = (|| -> Result<(), (String, String)> {
-                let mut lines = txt.split('\n').peekable();
-                let hdr = lines.next().unwrap_or("");
-                if hdr != format!("Decision Tree with {} nodes", nodes.len()) {
-                    return Err(("display_header".into(), hdr.to_string()));
-                }
-                let mut seen = vec![];
-                let mut edges: Vec<(usize, usize, usize)> = vec![];
-                while let Some(l) = lines.next() {
-                    if l.is_empty() {
-                        continue;
-                    }
-                    let l = l.strip_prefix('[').ok_or(("display_syntax".to_string(), format!("line {:?}", l)))?;
-                    let bar = l.find('|').ok_or(("display_syntax".to_string(), "no |".to_string()))?;
-                    let idx: usize = l[..bar].trim().parse().map_err(|_| ("display_syntax".to_string(), "index".to_string()))?;
-                    let kind = &l[bar + 1..bar + 2];
-                    let mut body = l[bar + 4..].to_string();
-                    // continuation lines of multi-row functions
-                    while let Some(nx) = lines.peek() {
-                        if nx.starts_with('[') || nx.starts_with("children: ") || nx.is_empty() {
-                            break;
-                        }
-                        body.push('\n');
-                        body.push_str(lines.next().unwrap());
-                    }
-                    let nd = nodes.iter().find(|x| x.0 == idx).ok_or(("display_nodes".to_string(), format!("unknown node {idx}")))?;
-                    if (kind == "T") != nd.1 {
-                        return Err(("display_kind".into(), format!("node {idx} shown as {kind}")));
-                    }
-                    let (o, ineq) = if nd.1 { (&func_o, false) } else { (&poly_o, true) };
-                    check_rows(&body, &nd.2, &nd.3, o, ineq).map_err(|(k, m)| (format!("display_label_{k}"), format!("node {idx}: {m}")))?;
-                    seen.push(idx);
-                    if let Some(nx) = lines.peek() {
-                        if let Some(ch) = nx.strip_prefix("children: ") {
-                            for part in ch.split(", ") {
-                                let mut it = part.split("->");
-                                let lab: usize = it.next().unwrap_or("").trim().parse().map_err(|_| ("display_syntax".to_string(), format!("children {:?}", ch)))?;
-                                let dst: usize = it.next().unwrap_or("").trim().parse().map_err(|_| ("display_syntax".to_string(), format!("children {:?}", ch)))?;
-                                edges.push((idx, lab, dst));
-                            }
-                            lines.next();
-                        }
-                    }
-                }
-                let exp_ids: Vec<usize> = nodes.iter().map(|x| x.0).collect();
-                if seen != exp_ids {
-                    return Err(("display_nodes".into(), format!("statements for {:?}, arena {:?}", seen, exp_ids)));
-                }
-                let mut exp_edges: Vec<(usize, usize, usize)> = vec![];
-                for nd in &nodes {
-                    for (l, c) in nd.4.iter().enumerate() {
-                        if let Some(c) = c {
-                            exp_edges.push((nd.0, l, *c));
-                        }
-                    }
-                }
-                edges.sort();
-                exp_edges.sort();
-                if edges != exp_edges {
-                    return Err(("display_edges".into(), format!("{:?} vs {:?}", edges, exp_edges)));
-                }
-                Ok(())
-            })();
+            let r = check_display(&txt, &nodes);
             if let Err((k, m)) = r {
                 out.violate(Violation::new(format!("Display output not faithful: {m}"), rec(&txt)).tag("kind", "display").tag("what", k));
             }
@@ -517,7 +546,19 @@ pub fn cases(tier: Tier) -> Vec<Case> {
         partial: true,
     };
     for (i, t) in g.all().into_iter().enumerate() {
-        v.push(Case::Tree { t, layout: (i % 3) as u8 });
+        v.push(Case::Tree { t, layout: (i % 4) as u8 });
+    }
+    // K = 4: predicates with two rows (and with one row), partial
+    let g4 = TreeGen {
+        k: 4,
+        preds: vec![Aff::new(vec![vec![1.0, -2.0], vec![0.0, 0.004]], vec![0.5, -1.0]), r1(&[0.0, 1.0], 2.5)],
+        terms: vec![Aff::identity(2), r1(&[0.0, -0.004], 12345.678)],
+        max_depth: 2,
+        max_nodes: 4,
+        partial: true,
+    };
+    for t in g4.all() {
+        v.push(Case::Tree4 { t });
     }
     v
 }
@@ -528,6 +569,7 @@ pub fn run(tier: Tier) -> Report {
     let total = par_cases(&cs, |_, c| match c {
         Case::Matrix { mat, bias } => check_matrix(mat, bias),
         Case::Tree { t, layout } => check_tree(t, *layout),
+        Case::Tree4 { t } => check_tree4(t),
     });
     rep.set("cases_total", cs.len() as u64);
     if let Some(Case::Matrix { mat, bias }) = cs.get(cs.len() / 4) {
